@@ -5,7 +5,7 @@
 (* date columns chronologically at the displayed precision, everything else  *)
 (* by code points; `desc` reverses).  Key values come from the world, so     *)
 (* keys need not be selected.                                                *)
-EXTENDS Eval, TLC, Json, IOUtils, FiniteSets
+EXTENDS Order, TLC, Json, IOUtils, FiniteSets
 
 Rec == ndJsonDeserialize(IOEnv.OBS)
 VARIABLE l
@@ -13,19 +13,6 @@ VARIABLE l
 PathStr(w, n) == "./" \o RelPath(w, n)
 Count(s, x) == Cardinality({ i \in 1 .. Len(s) : s[i] = x })
 Range(s) == { s[i] : i \in 1 .. Len(s) }
-
-KeyVal(r, n, col) == IF col = "size + 1" THEN IntV(r.snapshot[n].sizen + 1)
-                     ELSE IF col = "is_dir" THEN TextV(IF r.world.nodes[n].kind = "dir" THEN <<"t","r","u","e">> ELSE <<"f","a","l","s","e">>)
-                     ELSE Attr(r, n, col)
-(* -1, 0, 1 *)
-Cmp1(x, y) == IF x.t = "text" THEN (IF x.c = y.c THEN 0 ELSE IF LexLeq(x.c, y.c) THEN -1 ELSE 1)
-              ELSE (IF x.v = y.v THEN 0 ELSE IF x.v < y.v THEN -1 ELSE 1)
-RECURSIVE CmpKeys(_, _, _, _, _)
-CmpKeys(r, a, b, keys, i) ==
-  IF i > Len(keys) THEN 0
-  ELSE LET c == Cmp1(KeyVal(r, a, keys[i].col), KeyVal(r, b, keys[i].col))
-           d == IF keys[i].desc THEN 0 - c ELSE c
-       IN IF d # 0 THEN d ELSE CmpKeys(r, a, b, keys, i + 1)
 
 Verdict(r) ==
   LET w     == r.world
